@@ -34,66 +34,46 @@ Lemma map_field_text_map name kvs :
   map_field_text name (Map kvs) = Ok (match find_field name kvs with Some v => node_value v | None => "" end).
 Proof. unfold map_field_text, raw_map_field_value. cbn [content]. now rewrite raw_find_flatten. Qed.
 
-(* ---------- the panic: exactly a dangling last node that is reached ---------- *)
-Lemma raw_find_even_no_panic name c : Nat.even (List.length c) = true -> raw_find name c <> Panic.
+(* ---------- no reader panics; a trailing entry without a partner is ignored ---------- *)
+Lemma raw_find_no_panic name c : raw_find name c <> Panic.
 Proof.
-  revert c. fix IH 1. intros [|k [|v t]] H.
-  - discriminate.
-  - discriminate.
-  - cbn [raw_find]. destruct (String.eqb (node_value k) name); [discriminate|]. apply IH. exact H.
+  revert c. fix IH 1. intros [|k [|v t]]; try discriminate.
+  cbn [raw_find]. destruct (String.eqb (node_value k) name); [discriminate|]. apply IH.
 Qed.
 
-Lemma raw_find_panic_odd name c : raw_find name c = Panic -> Nat.odd (List.length c) = true.
+Lemma raw_pairs_no_panic c : raw_pairs c <> Panic.
 Proof.
-  intros H. rewrite <- Nat.negb_even. destruct (Nat.even (List.length c)) eqn:E; [|reflexivity].
-  exfalso. eapply raw_find_even_no_panic; eauto.
+  revert c. fix IH 1. intros [|a [|b t]]; try discriminate.
+  cbn [raw_pairs]. specialize (IH t). destruct (raw_pairs t); cbn; congruence.
 Qed.
 
-(* the key is not among the keys (even positions) of an odd Content: the reader runs off the end *)
-Fixpoint key_absent (name : string) (c : list node) : bool :=
-  match c with
-  | k :: _ :: t => negb (String.eqb (node_value k) name) && key_absent name t
-  | _ => true
-  end.
-
-Lemma raw_find_panics name c :
-  Nat.odd (List.length c) = true -> key_absent name c = true -> raw_find name c = Panic.
+(* the reader sees exactly the complete pairs *)
+Lemma raw_find_unpaired name kvs x : raw_find name (flatten kvs ++ [x]) = Ok (find_field name kvs).
 Proof.
-  revert c. fix IH 1. intros [|k [|v t]] Ho Ha.
-  - discriminate.
-  - reflexivity.
-  - cbn [raw_find]. cbn [key_absent] in Ha. apply andb_true_iff in Ha. destruct Ha as [H1 H2].
-    apply negb_true_iff in H1. rewrite H1. apply IH; [exact Ho|exact H2].
+  induction kvs as [|[k v] t IH]; [reflexivity|]. cbn [flatten app raw_find key_node node_value find_field].
+  destruct (String.eqb k name); [reflexivity|]. exact IH.
 Qed.
 
-(* GetKind on a sequence with an odd number of elements none of whose even positions reads "kind":
-   the C12 finding class panic:kyaml/yaml.visitFieldsWhileTrue:index-oob, reproduced by the model *)
-Lemma get_kind_seq_panics :
-  exists n, rn_get_kind n = Panic.
-Proof. exists (Seq [Scalar TStr SPlain "a"]). reflexivity. Qed.
-
-Lemma map_field_text_no_panic_map name kvs : map_field_text name (Map kvs) <> Panic.
-Proof. rewrite map_field_text_map. discriminate. Qed.
-
-Lemma map_field_text_no_panic_scalar name t s v : map_field_text name (Scalar t s v) <> Panic.
-Proof. discriminate. Qed.
-
-Lemma map_field_text_seq_panic_iff name es :
-  map_field_text name (Seq es) = Panic <-> raw_find name es = Panic.
+Lemma map_field_text_no_panic name n : map_field_text name n <> Panic.
 Proof.
-  unfold map_field_text, raw_map_field_value. cbn [content].
-  destruct (raw_find name es) as [[?|]| | |]; cbn; split; intros H; try discriminate; reflexivity.
+  unfold map_field_text, raw_map_field_value. pose proof (raw_find_no_panic name (content n)) as H.
+  destruct (raw_find name (content n)) as [[?|]| | |]; cbn; congruence.
 Qed.
 
-(* Fields() rejects an odd Content with an error instead *)
 Lemma raw_fields_never_panics k c : raw_fields k c <> Panic.
 Proof.
-  destruct k; cbn; [|discriminate]. destruct (Nat.even (List.length c)) eqn:E; [|discriminate].
-  assert (H : raw_pairs c <> Panic).
-  { revert c E. fix IH 1. intros [|a [|b t]] E; try discriminate.
-    cbn [raw_pairs]. specialize (IH t E). destruct (raw_pairs t); cbn; congruence. }
-  destruct (raw_pairs c); cbn; congruence.
+  destruct k; cbn; [|discriminate]. destruct (Nat.even (List.length c)); [|discriminate].
+  pose proof (raw_pairs_no_panic c) as H. destruct (raw_pairs c); cbn; congruence.
 Qed.
+
+(* regression inputs of the former finding C14/panic-visitFieldsWhileTrue-index-oob (= C12 visitFieldsWhileTrue:index-oob):
+   GetKind on a sequence with an odd number of elements, Field on a mapping node with an odd Content *)
+Example regression_odd_content :
+  rn_get_kind (Seq [Scalar TStr SPlain "a"]) = Ok "" /\
+  rn_get_kind (Seq [Scalar TStr SPlain "kind"; Scalar TStr SPlain "K"; Scalar TStr SPlain "x"]) = Ok "K" /\
+  raw_field RKMap [Scalar TStr SPlain "a"; Scalar TInt SPlain "1"; Scalar TStr SPlain "b"] "b" = Ok None /\
+  raw_fields RKMap [Scalar TStr SPlain "a"; Scalar TInt SPlain "1"; Scalar TStr SPlain "b"] = Err.
+Proof. repeat split. Qed.
 
 (* ---------- document order ---------- *)
 Lemma elements_order es : elements (Seq es) = Ok es.
@@ -183,10 +163,10 @@ Lemma fs_apply_raw_agrees ck ct sv fs obj :
   is_seq obj = false -> fs_apply_raw ck ct sv fs obj = fs_apply ck ct sv fs obj.
 Proof. intros Hs. unfold fs_apply_raw, fs_apply. now rewrite (is_match_gvk_raw_agrees _ _ Hs). Qed.
 
-(* on a sequence object the GVK test itself can panic (odd number of elements) *)
-Lemma fs_apply_raw_seq_panics :
-  exists fs obj, fs_apply_raw None TNone (fun x => Ok x) fs obj = Panic.
-Proof. exists (mkFs "" "" "" "a" false), (Seq [Scalar TStr SPlain "x"]). reflexivity. Qed.
+(* on a sequence object the GVK test reads the elements pairwise; it no longer panics on an odd number of them *)
+Example fs_apply_raw_seq_regression :
+  fs_apply_raw None TNone (fun x => Ok x) (mkFs "" "" "" "a" false) (Seq [Map []]) = Ok (Seq [Map []]).
+Proof. reflexivity. Qed.
 
 (* one step of a slice agrees as well; a whole slice agrees as long as no intermediate object is a sequence
    (a field spec whose path is blank hands the object itself to SetValue, which may return anything) *)
